@@ -116,6 +116,10 @@ def run(tier):
                 w = [ord(c) for c in rng.choice(tw)][: rng.choice([5, 20, 99, 120])]
             else:
                 w = [rng.choice(b"abcdefghijklmnopqrstuvwxyzABC -'.") for _ in range(rng.choice([0, 1, 2, 8, 30, 98, 99, 100, 101, 150]))]
+            if rng.random() < 0.15 and w:
+                # hyphens and apostrophes at the very start / end and doubled: the compound-word scan looks around them
+                pre = rng.choice(["-", "--", "'", "-'", ""])
+                w = ([ord(x) for x in pre] + w + [ord(x) for x in rng.choice(["", "-", "-a", "--"])])[:100]
             ops.append("HYP %s 0 %s" % (corpus.tpath(hl), common.wide(w)))
             cells = corpus.rand_braille(rng, rng.choice([1, 8, 30, 99, 100]), dots_io=False)
             ops.append("HYP %s 1 %s" % (corpus.tpath(hl), common.wide(cells)))
